@@ -17,7 +17,9 @@ type solverSpec struct {
 var solvers = []solverSpec{
 	{"z3-5.1.0", func(t int) []string { return []string{"z3-new", "-in", "-T:" + itoa(t)} }},
 	{"z3-4.8.12", func(t int) []string { return []string{"z3", "-in", "-T:" + itoa(t)} }},
-	{"cvc5-1.0", func(t int) []string { return []string{"cvc5", "--lang=smt2", "--incremental", "--tlimit=" + itoa(t*1000)} }},
+	{"cvc5-1.0", func(t int) []string {
+		return []string{"cvc5", "--lang=smt2", "--incremental", "--tlimit=" + itoa(t*1000)}
+	}},
 }
 
 func itoa(i int) string {
@@ -127,7 +129,9 @@ func solveQuery(q *Query, timeoutS int, thorough bool, vacuity bool) {
 	q.Ms = total
 }
 
-func hasQuantifier(s string) bool { return strings.Contains(s, "(forall") || strings.Contains(s, "(exists") }
+func hasQuantifier(s string) bool {
+	return strings.Contains(s, "(forall") || strings.Contains(s, "(exists")
+}
 
 func (e *Engine) SolveAll(workers int) {
 	type job struct {
@@ -194,7 +198,18 @@ func firstLine(s string) string {
 
 // modelFor re-runs a failed query asking for a (candidate) model.
 func modelFor(q *Query) string {
-	smt := strings.Replace(q.SMT, "(check-sat)\n", "(check-sat)\n(get-model)\n", 1)
+	// quantifier-free relaxation (an over-approximation: the candidate may be spurious)
+	var keep []string
+	for _, l := range strings.Split(q.SMT, "\n") {
+		if strings.HasPrefix(l, "(assert") && (strings.Contains(l, "(forall") || strings.Contains(l, "(exists")) {
+			continue
+		}
+		if strings.HasPrefix(l, "(set-option :smt.mbqi") {
+			continue
+		}
+		keep = append(keep, l)
+	}
+	smt := strings.Replace(strings.Join(keep, "\n"), "(check-sat)", "(check-sat)\n(get-model)", 1)
 	_, out, _ := runSolver(solvers[0], smt, 5)
 	if len(out) > 20000 {
 		out = out[:20000] + "\n...truncated"
